@@ -436,8 +436,14 @@ func c07ViaParamsAccepted(c *Ctx, rule string) {
 		return
 	}
 	var loop *rangeLoop
+	loops := rangeLoops(f)
+	for _, rl := range countingLoops(f, true) {
+		if rl.Start > 0 {
+			loops = append(loops, rl) // `for i := 1; i < len(segments); i++`: the parameters behind the sent-by
+		}
+	}
 	for _, st := range w.fieldStores(f, "ViaParam.Params") {
-		for _, rl := range rangeLoops(f) {
+		for _, rl := range loops {
 			if rl.inLoop(st.Block()) {
 				loop = rl
 			}
